@@ -145,3 +145,50 @@ def all_paths_sweep(chk: Check) -> None:
         "compared_ops": chk.stats["compared_ops"] - before,
         "wall_s": round(time.time() - t0, 1),
     }
+
+
+def detector_abort_sweep(chk: Check, n_contracts: int, n_k: int) -> None:
+    """Abort a detector run at points spread over the whole path search (the amount of state a run
+    has accumulated grows with time, so late abort points matter), then run every detector again on
+    the very same Tealer object, then on a fresh one."""
+    ctx = chk.ctx
+    rng = random.Random("detabort:%d" % chk.seed)
+    specs: List[Dict[str, Any]] = []
+    idx = 0
+    dets = list(ctx.detectors)
+    cands = sorted(ctx.sites)
+    rng.shuffle(cands)
+    for cid in cands[:n_contracts]:
+        for site in sorted(ctx.sites[cid]):
+            f, fn = site.split(":")
+            if not f.startswith("detectors/") or fn not in ("search_paths", "validated_in_block", "checks_field", "detect"):
+                continue
+            count = ctx.sites[cid][site]
+            ks = sorted(set([count, max(1, count - 1), max(1, count - 3)] + [rng.randrange(1, count + 1) for _ in range(n_k)]))
+            for k in ks[-(n_k + 2):] if fn != "search_paths" else ks:
+                exc = rng.choice(["KeyboardInterrupt", "MemoryError", "RuntimeError"])
+                first = list(dets)
+                rng.shuffle(first)
+                again = list(dets)
+                rng.shuffle(again)
+                ops = [
+                    {"op": "single", "c": cid, "dets": dets, "runs": list(dets), "s1": "id", "h": "X1", "uid": 0,
+                     "fault": {"kind": "exc_call", "file": f, "func": fn, "k": k, "exc": exc}},
+                    {"op": "rerun", "h": "X1", "dets": [], "runs": again, "s1": "id", "uid": 1},
+                    {"op": "single", "c": cid, "dets": first, "runs": None, "s1": "id", "uid": 2},
+                ]
+                specs.append({"ops": ops, "hashseed": rng.choice(ctx.hashseeds), "index": 4000000 + idx, "faulty": True})
+                idx += 1
+    t0 = time.time()
+    before = chk.stats["faults_fired"].get("exc_call", 0)
+    for i in range(0, len(specs), 128):
+        chk.run_batch(specs[i : i + 128], 1800.0)
+        if len(chk.violations) >= 5:
+            break
+    log(f"[c14:detabort] sessions={len(specs)} t={time.time()-chk.t0:.0f}s")
+    chk.stats["sweep_detector_abort"] = {
+        "contracts": cands[:n_contracts],
+        "sessions": len(specs),
+        "faults_fired": chk.stats["faults_fired"].get("exc_call", 0) - before,
+        "wall_s": round(time.time() - t0, 1),
+    }
